@@ -150,4 +150,71 @@ MUTANTS = [
     }
     return b <= max - a;''')],
      'expect': {'C01': None}},
+    {'name': 'silent_consume_helper', 'edits': [(P, """    data->bptr = &parser->buffer[parser->buffer_used];
+    data->bsize = size;
+
+    if (!peek) {
+        parser->buffer_used += size;
+    }
+
+    return true;
+
+}""", """    data->bptr = &parser->buffer[parser->buffer_used];
+    data->bsize = size;
+
+    if (!peek) {
+        _skip_bytes(parser, size);
+    }
+
+    return true;
+
+}
+
+static void _skip_bytes(binson_parser *parser, size_t size)
+{
+    parser->buffer_used += size;
+}"""), (P, "static bool _check_boundary(size_t a,\n                            size_t b,\n                            size_t max);\n", "static bool _check_boundary(size_t a,\n                            size_t b,\n                            size_t max);\nstatic void _skip_bytes(binson_parser *parser, size_t size);\n")],
+     'expect': {'C01': None, 'C16': None}},
+    {'name': 'silent_getter_early_returns', 'edits': [(P, """    if ((NULL != parser) &&
+        (BINSON_ERROR_NONE == parser->error_flags) &&
+        (NULL != parser->current_state) &&
+        (BINSON_TYPE_INTEGER == parser->current_state->current_type)) {
+        return parser->current_state->current_value.integer_value;
+    }
+
+    return 0;""", """    if (NULL == parser) {
+        return 0;
+    }
+    if (BINSON_ERROR_NONE != parser->error_flags) {
+        return 0;
+    }
+    if (NULL == parser->current_state) {
+        return 0;
+    }
+    if (BINSON_TYPE_INTEGER != parser->current_state->current_type) {
+        return 0;
+    }
+    return parser->current_state->current_value.integer_value;""")],
+     'expect': {'C01': None, 'C03': None, 'C09': None}},
+    {'name': 'silent_cmp_name_byte_loop', 'edits': [(P, """    int r = memcmp(a->bptr,
+                   b->bptr,
+                   MIN(a->bsize, b->bsize));
+
+    if (r != 0) {
+        return r;
+    }
+""", """    size_t n = MIN(a->bsize, b->bsize);
+    size_t i;
+    int r = 0;
+    for (i = 0; i < n; i++) {
+        if (a->bptr[i] != b->bptr[i]) {
+            return (a->bptr[i] < b->bptr[i]) ? -1 : 1;
+        }
+    }
+
+    if (r != 0) {
+        return r;
+    }
+""")],
+     'expect': {'C01': None, 'C18': None}},
 ]
